@@ -262,6 +262,8 @@ def gen_sa(tier, seed):
     yield {'zone': 55, 'north': 6251064.8483, 'easts': [3e5, 444444.4444, 612345.6789], 'mode': 'csv', 'noeol': True, 'eol': 'lf'}
     yield {'zone': 51, 'north': 7000000.001, 'easts': [3e5, 444444.4444, 612345.6789], 'mode': 'csv', 'noeol': True, 'eol': 'crlf'}
     yield {'zone': 56, 'north': 6000001.0, 'easts': [5e5], 'mode': 'csv', 'noeol': True, 'eol': 'lf'}
+    # point names are labels, not keys: repeated and blank names (re-observed marks, numbering restarted) keep their own rows
+    yield {'zone': 54, 'north': 6543210.123, 'easts': [2e5, 3e5, 4e5, 5e5, 6e5, 7e5, 8e5], 'mode': 'csv', 'dupids': True}
     yield {'zone': 55, 'north': 6.2e6, 'easts': es, 'mode': 'csv', 'spell': 1}
     yield {'zone': 50, 'north': 5813614.161, 'easts': [321405.559, 444444.4444, 5e5, 612345.678, 7e5, 100000.5, 2e5, 3e5], 'mode': 'csv', 'spell': 1}
 
@@ -288,7 +290,8 @@ def ev_sa(case, rec):
                 # the same numbers in every spelling float() reads: plain, exponent, explicit sign, blanks around
                 sp = case.get('spell', 0) and (i % 4)
                 fmt = [repr, lambda v: '%.17e' % v, lambda v: '+' + repr(v), lambda v: ' %r ' % v][sp]
-                w.writerow(['P%d' % i, z if sp != 1 else '%.1e' % z if z % 10 == 0 else '%.2E' % z, fmt(e), fmt(north)])
+                pid = 'P%d' % i if not case.get('dupids') else ['RM1', 'RM1', '', '', 'P7', 'RM1'][i % 6]
+                w.writerow([pid, z if sp != 1 else '%.1e' % z if z % 10 == 0 else '%.2E' % z, fmt(e), fmt(north)])
         if case.get('noeol'):
             # the last line of the file without a line terminator (as most editors and many exporters leave it)
             raw = open(fn_in, 'rb').read()
